@@ -422,28 +422,28 @@ def exchange_of(expr):
 
 
 def request_generators(ctx):
-    """functions of IkeSa that assign self.request from generate_request(Exchange.T, ...):
-    [{fi, exchange, node (ast.Assign), states (set of state names assigned in the function)}]"""
+    """functions of IkeSa that store generate_request(Exchange.T, ...) into self.request:
+    [{fi, exchange, node (the storing statement), states (set of state names the function can store into self.state)}]
+    (read from value terms: locals, helpers and conditional expressions in between do not matter)"""
+    from .. import tq
     out = []
     cls = ctx.prog.cls('ikesa.IkeSa')
     for fi in cls.methods.values():
-        for n in walk_no_nested(fi.node):
-            if not isinstance(n, ast.Assign):
+        if not isinstance(fi.node, ast.FunctionDef):
+            continue
+        sv = ctx.sval(fi)
+        me = ('param', fi.self_name)
+        for t, v, pc, st, _ in sv.stores:
+            if t != ('attr', me, 'request') or not tq.is_call(v, 'ikesa.IkeSa.generate_request'):
                 continue
-            if not any(is_self_attr(t, fi, 'request') for t in n.targets):
-                continue
-            v = n.value
-            if isinstance(v, ast.Call) and isinstance(v.func, ast.Attribute) and v.func.attr == 'generate_request' \
-                    and v.args:
-                ex = exchange_of(v.args[0])
-                states = set()
-                for m in walk_no_nested(fi.node):
-                    if isinstance(m, ast.Assign) and any(is_self_attr(t, fi, 'state') for t in m.targets):
-                        for x in ast.walk(m.value):
-                            s = state_name(x)
-                            if s:
-                                states.add(s)
-                out.append({'fi': fi, 'exchange': ex, 'node': n, 'states': states})
+            ex = tq.args(v).get('exchange_type', ('undef',))
+            ex = ex[1].split('.')[-1] if ex[0] == 'global' and '.Exchange.' in ex[1] else None
+            states = set()
+            for t2, v2, _, _, _ in sv.stores:
+                if t2 == ('attr', me, 'state'):
+                    for x in tq.find(v2, lambda y: y[0] == 'global' and y[1].startswith('ikesa.IkeSa.State.')):
+                        states.add(x[1].split('.')[-1])
+            out.append({'fi': fi, 'exchange': ex, 'node': st, 'states': states})
     return out
 
 
